@@ -115,7 +115,8 @@ func init() {
 		sort.Strings(owners)
 		for _, o := range owners {
 			if !c40DupQuiescent[o] {
-				c.Violate("inconsistent-response:listproducers:duplicate-owner", c40DupStorm[o], nil)
+				c.Inc("torn_response|listproducers:duplicate-owner")
+				c.Violate("inconsistent-response:family:torn-read-during-block-processing", "listproducers:duplicate-owner: "+c40DupStorm[o], nil)
 			}
 		}
 	})
@@ -370,7 +371,11 @@ func c40DposQueries(c *kit.Ctx, nd *node.Node, p *c40DposPlan) []c40Query {
 			c.Violate("inconsistent-state-at-quiescence:"+q+":"+what, fmt.Sprintf(format, a...), nil)
 			return
 		}
-		c.Violate("inconsistent-response:"+q+":"+what, fmt.Sprintf(format, a...)+fmt.Sprintf(" (during the storm, tip height %d)", nd.Height()), nil)
+		// during the storm a single response may be torn by the unlocked handler reads
+		// (known finding, same root cause as the rpc-handler race family); the exact
+		// invariant is counted, and judged exactly at quiescence (above).
+		c.Inc("torn_response|" + q + ":" + what)
+		c.Violate("inconsistent-response:family:torn-read-during-block-processing", q+":"+what+": "+fmt.Sprintf(format, a...)+fmt.Sprintf(" (during the storm, tip height %d)", nd.Height()), nil)
 	}
 	checked := func(q string) { c.Inc("response_invariants_checked:" + q) }
 	listProducers := func(st string) func(int) {
